@@ -230,6 +230,14 @@ def run(ctx):
     run_padvalues(ctx)
 
 
+def nanfree(x):
+    """NaN → the string "nan" (so that equal structures compare equal)"""
+    if isinstance(x, float): return "nan" if x != x else x
+    if isinstance(x, list): return [nanfree(v) for v in x]
+    if isinstance(x, dict): return {k: nanfree(v) for k, v in x.items()}
+    return x
+
+
 def run_padvalues(ctx):
     """`collate_tensors(batch, pad_value=v)` with non-default pad values, masked and plain tensors"""
     from pose_format.torch.masked.collator import collate_tensors
@@ -240,7 +248,7 @@ def run_padvalues(ctx):
         lens = [rng.choice([0, 1, 2, 3]) for _ in range(bs)]
         trail = rng.choice([(), (2,)])
         masked = rng.random() < 0.6
-        pad = rng.choice([-1.0, 255.0, 7.5, 0.0])
+        pad = rng.choice([-1.0, 255.0, 7.5, 0.0, float("nan"), float("inf")])
         cases.append(([gen_tensor(rng, l, trail, masked) for l in lens], lens, pad))
     outs = ctx.driver.run([{"op": "collate", "batch": [model_json(d) for d in batch], "pad": mtexec.f64_bits(pad)} for batch, _, pad in cases])
     for (batch, lens, pad), mo in zip(cases, outs):
@@ -260,11 +268,12 @@ def run_padvalues(ctx):
         if r is not None:
             for e, ex in enumerate(batch):
                 seg = r["data"][e * row:(e + 1) * row]
-                if seg[:lens[e] * inner] != ex[key]["data"] or any(v != pad for v in seg[lens[e] * inner:]):
+                same = lambda v, w: v == w or (v != v and w != w)                       # NaN is a pad value like any other
+                if seg[:lens[e] * inner] != ex[key]["data"] or any(not same(v, pad) for v in seg[lens[e] * inner:]):
                     ctx.violation("an example's values are altered, or padding is not the pad value", info, {"example": e, "row": seg}, True, size=len(batch), signature={"clause": "values"}); break
                 if key == "masked" and (r["mask"][e * row:(e + 1) * row][:lens[e] * inner] != ex[key]["mask"] or any(r["mask"][e * row:(e + 1) * row][lens[e] * inner:])):
                     ctx.violation("validity is altered, or a padded position is marked valid", info, {"example": e}, True, size=len(batch), signature={"clause": "mask"}); break
-        if not mo["ok"] or unbits(mo["result"]) != res[1]:
+        if not mo["ok"] or nanfree(unbits(mo["result"])) != nanfree(res[1]):
             ctx.violation("collation with a pad value: result differs from the model's", info, {"impl": str(res[1])[:300], "model": str(unbits(mo["result"]) if mo["ok"] else None)[:300]}, False, size=len(batch))
 
 
